@@ -47,6 +47,20 @@ pub fn check(c: &Case) -> Outcome {
         Ok(s) => s,
         Err(e) => return Outcome::triv(format!("twin-run:{}", e.chars().take(30).collect::<String>())),
     };
+    // "with and without t_eval": which events occur (and hence whether and where a terminal count is reached) is a matter
+    // of the accepted steps, not of the output times asked for -- the twin is only a faithful witness of "a terminal count
+    // is reached" if it finds the same events as the run that requests no output times
+    if te.is_some() {
+        if let Ok(reference) = run_one(c, &prob, &evs_nt, &None) {
+            let same = reference.t_events.len() == twin.t_events.len() && reference.t_events.iter().zip(&twin.t_events).all(|(x, y)| bits_eq(x, y));
+            if !same {
+                return Outcome::viol(format!(
+                    "{}: with requested output times {:?}... the events found ({:?} per function) differ from those of the same run without t_eval ({:?} per function): an event that reaches its terminal count would not stop the run",
+                    c.base.method.name(), te.as_ref().unwrap().iter().take(3).collect::<Vec<_>>(), twin.t_events.iter().map(|v| v.len()).collect::<Vec<_>>(), reference.t_events.iter().map(|v| v.len()).collect::<Vec<_>>()
+                ));
+            }
+        }
+    }
     let sol = match run_one(c, &prob, &evs, &te) {
         Ok(s) => s,
         Err(e) => return Outcome::viol(format!("run without terminal flags is Ok but with them: {}", e)),
@@ -221,7 +235,7 @@ pub fn run(ctx: &Ctx, known: &[Known]) -> Report {
     let stats = run_generated(ctx, "C10", "gen", &strategy, &check, cases, known);
     Report {
         id: "C10".into(),
-        rule: "two-phase cases: 1..4 event functions (roots placed mid-step / beside grid points / several in the same step, all direction filters), at least one marked terminal with occurrence count 1..3, both directions, six methods, with/without grid-relative t_eval and dense_output. Each case is run with and without the terminal flags (twin). Oracle: UserInterrupt iff the twin reaches a terminal count; final sample = that event point bit-for-bit; nothing later; earlier events of all functions kept bit-identically; samples before the stop are a bit-identical, complete prefix of the twin's. Non-trivial = the count was reached and (another function's event lies in the final step or count >= 2). Distinct = distinct canonical JSON.".into(),
+        rule: "two-phase cases: 1..4 event functions (roots placed mid-step / beside grid points / several in the same step, all direction filters), at least one marked terminal with occurrence count 1..3, both directions, six methods, with/without grid-relative t_eval and dense_output. Each case is run with and without the terminal flags (twin); with t_eval the twin must find the same event times, bit for bit, as the same run without t_eval. Oracle: UserInterrupt iff the twin reaches a terminal count; final sample = that event point bit-for-bit; nothing later; earlier events of all functions kept bit-identically; samples before the stop are a bit-identical, complete prefix of the twin's. Non-trivial = the count was reached and (another function's event lies in the final step or count >= 2). Distinct = distinct canonical JSON.".into(),
         assumptions: vec!["two terminal functions reaching their counts at exactly the same time are skipped (winner depends on processing order)".into(), "other functions' events at exactly the stop time may or may not be listed".into()],
         min_nontrivial_frac: 0.08,
         stats,
